@@ -123,11 +123,17 @@ gen_id_case(const std::string &p, int cap)
       }
     }
     if (p == "C15" && chance(70)) ops.insert(ops.begin(), mk(GETHB));
+    if (p == "C05" && chance(8)) {
+      ops.insert(ops.begin(), mk(GETID));
+      ops.push_back(mk(YIELD, static_cast<uint32_t>(pick(150, 330))));
+      ops.push_back(mk(GETID));
+    }
     if (p == "C14" && chance(50)) {
       // a holder that stays in user code for a while after taking its ID
       ops.insert(ops.begin(), mk(GETID));
       const int extra = pick(4, 24);
       for (int k = 0; k < extra; k++) ops.push_back(mk(chance(75) ? YIELD : SPIN, static_cast<uint32_t>(pick(1, 4))));
+      if (chance(15)) ops.push_back(mk(YIELD, static_cast<uint32_t>(pick(150, 330))));  // a very long-lived holder
     }
   }
   assign_probes(c, cap);
@@ -192,6 +198,17 @@ gen_epoch_case(const std::string &p, int cap)
           default: ops.push_back(mk(SPIN, static_cast<uint32_t>(pick(1, 5)))); break;
         }
       }
+      if ((p == "C16" && chance(10)) || (p == "C17" && chance(4))) {
+        // two overlapping guards of one thread, destroyed in LIFO or in creation order; the thread lives on afterwards
+        ops.push_back(mk(GUARD2_NEW));
+        const int in2 = pick(0, 2);
+        for (int k = 0; k < in2; k++) ops.push_back(mk(chance(50) ? YIELD : READ_CUR));
+        const bool fifo = chance(55);
+        ops.push_back(fifo ? mk(GUARD_END, static_cast<uint32_t>(pick(0, 2))) : mk(GUARD2_END));
+        if (chance(40)) ops.push_back(mk(YIELD));
+        ops.push_back(fifo ? mk(GUARD2_END) : mk(GUARD_END, static_cast<uint32_t>(pick(0, 2))));
+        ops.push_back(mk(YIELD, static_cast<uint32_t>(pick(2, 12))));
+      }
       if (chance(85)) ops.push_back(mk(GUARD_END, static_cast<uint32_t>(pick(0, 2))));
       if (chance(30)) ops.push_back(mk(READ_CUR));
     }
@@ -236,6 +253,8 @@ classify(const std::string &p, const Case &c, const Outcome &o, std::vector<std:
   if (o.fwd_inside_getprotected) labels.push_back("fwd_inside_getprotected");
   if (o.node_retired_under_guard) labels.push_back("node_retired_under_guard");
   if (static_cast<int>(c.threads.size()) > c.cap) labels.push_back("oversubscribed");
+  if (o.overlapping_guards) labels.push_back("overlapping_guards");
+  if (o.max_id >= 32) labels.push_back(o.max_id >= 64 ? "id>=64" : "id>=32");
   if (p == "C05") return o.probe_collision || o.probe_wrapped;
   if (p == "C14") return o.claim_overlaps_exit || o.waited_full;
   if (p == "C15") return o.reuse_in_cleanup || o.reuse_after_exit;
